@@ -82,6 +82,21 @@ needs.update({
  "C07-l2": ("default NFFT follows a new data length by writing __NFFT directly (Range.N keeps the old value)", "NFFT equal to the data length, real data, then data of another length"),
  "C07-l3": ("psd setter re-applies the user's sides, but scale() round-trips through the setter and converts twice", "non-default sides after a computation, another attribute assigned, a read, and a scaling estimator (scale_by_freq=True)"),
 })
+
+needs.update({
+ "C06-m1": ("pcorrelogram skips the one-sided fold when data_y is assigned, but the psd setter still labels the NFFT-long vector 'onesided'", "pcorrelogram with real data and data_y assigned (attribute only), then any conversion"),
+ "C06-m2": ("Nyquist presence inferred from the parity of the one-sided length (even = len(psd) % 2 == 1)", "real data, NFFT = 1 or 2 (mod 4): 5, 6, 9, 10, 65, 66, 201"),
+ "C06-m3": ("scale_by_freq setter rescales through self.psd /= ..., i.e. through the psd setter, which resets the label without converting", "a parametric estimator, a current PSD in non-default sides, a scale_by_freq toggle between two conversions"),
+ "C06-n1": ("pcorrelogram skips the fold when data_y is complex (label stays onesided)", "pcorrelogram, real data, complex data_y assigned through the attribute"),
+ "C06-n2": ("NFFT setter does not update Range.N when the assigned value is None", "NFFT different from the data length, then p.NFFT = None"),
+ "C06-n3": ("data setter returns early for same-length data, leaving datatype stale", "data replaced by data of the other kind (real <-> complex) with exactly the same length, then a conversion"),
+ "C07-m1": ("ParametricSpectrum lag setter assigns modified = (lag != old): re-assigning an unchanged lag clears a pending invalidation", "parma, computed PSD, an invalidating assignment, p.lag = <same>, read"),
+ "C07-m2": ("ma_order setter compares the new value with ar_order instead of ma_order", "parma or pma, computed PSD, ma_order assigned a new value equal to the current ar_order"),
+ "C07-m3": ("MultiTapering keeps its tapers between computations; the invalidation sits in an overridden _setData that the inherited property never calls", "MultiTapering, computed once, data of a different length assigned, read"),
+ "C07-n1": ("pmtm 'eigen' weights computed with an in-place /= on a view of the caller-supplied eigenvalues (self.e)", "MultiTapering(data, e=..., v=..., method='eigen'), a read, any invalidating assignment, a second read"),
+ "C07-n2": ("CORRELOGRAMPSD silently raises NFFT to 2*lag+1 when NFFT <= lag", "pcorrelogram with NFFT <= lag < N"),
+ "C07-n3": ("the only effective 'complex data cannot be onesided' assertion removed from get_converted_psd", "complex data, computed PSD, sides='onesided' (lossy fold), then sides='twosided' or 'centerdc'"),
+})
 res = json.load(open('/verif/seeded/RESULTS.json'))
 for sid, (mech, need) in needs.items():
     d = '/verif/seeded/' + sid
